@@ -57,7 +57,7 @@ def gen_cases(tier, seed):
             d = 2
         cases.append(dict(kind=kind, d=d, net=net, parts=parts, ncomp=int(rng.integers(1, 4)),
                           n_out=int(rng.integers(1, 4)), B=int(rng.integers(1, 18)) if net == "pinn" else int(rng.integers(2, 4)),
-                          wvec=bool(rng.integers(2)), eager=(k % 10 == 0), seed=seed * 100000 + k,
+                          wvec=bool(rng.integers(2)), eager=(k % 10 == 0), seed=seed * 100000 + k, x64=bool(k % 7 != 3),
                           cost=1.0 + (1.0 if net == "spinn" else 0.0)))
     return cases
 
